@@ -538,6 +538,113 @@ def run_history(h):
     return runs, len(log), found, [f"{a} {b}" for a, b in log]
 
 
+# ---------------------------------------------------------------------------
+# OS-level fault: a file-size limit (RLIMIT_FSIZE, SIGXFSZ ignored -> EFBIG / short writes) in a forked child.
+# This reaches the write paths the proxy files cannot: ndarray.tofile through the descriptor and the kernel copy.
+
+SL_KINDS = ("ndarray", "proto_raw", "external", "lazy", "mixed")
+SL_N = 1000
+
+
+def _sl_tensors(kind, d):
+    from onnx_ir import serde as _serde
+    import onnx as _onnx
+
+    a, b = _arr(SL_N, 0x41), _arr(SL_N, 0x42)
+    if kind == "ndarray":
+        return [ir.Tensor(a), ir.Tensor(b)]
+    if kind == "proto_raw":
+        return [_serde.TensorProtoTensor(_onnx.TensorProto(name=f"w{i}", data_type=_onnx.TensorProto.UINT8, dims=[SL_N], raw_data=x.tobytes())) for i, x in enumerate((a, b))]
+    if kind == "external":
+        with open(os.path.join(d, "src.data"), "wb") as f:
+            f.write(a.tobytes() + b.tobytes())
+        return [ir.ExternalTensor("src.data", i * SL_N, SL_N, ir.DataType.UINT8, shape=ir.Shape([SL_N]), name=f"w{i}", base_dir=d) for i in range(2)]
+    if kind == "lazy":
+        return [ir.LazyTensor(lambda x=x: ir.Tensor(x), dtype=ir.DataType.UINT8, shape=ir.Shape([SL_N]), name=f"w{i}") for i, x in enumerate((a, b))]
+    from onnx_ir import serde as _s2
+
+    return [ir.Tensor(a), _s2.TensorProtoTensor(_onnx.TensorProto(name="w1", data_type=_onnx.TensorProto.UINT8, dims=[SL_N], raw_data=b.tobytes()))]
+
+
+def _sl_run(kind, entry, limit):
+    """One execution. Returns (outcome, violations)."""
+    import resource
+    import signal
+
+    d = common.scratch_dir("c08sl")
+    old = b"OLD" * 700
+    new = _arr(SL_N, 0x41).tobytes() + _arr(SL_N, 0x42).tobytes()
+    bad = []
+    try:
+        with open(os.path.join(d, "w.data"), "wb") as f:
+            f.write(old)
+        model = _model(_sl_tensors(kind, d))
+        before = set(os.listdir(d))
+        rfd, wfd = os.pipe()
+        pid = os.fork()
+        if pid == 0:
+            code = b"?"
+            try:
+                os.close(rfd)
+                signal.signal(signal.SIGXFSZ, signal.SIG_IGN)
+                _, hard = resource.getrlimit(resource.RLIMIT_FSIZE)
+                resource.setrlimit(resource.RLIMIT_FSIZE, (limit, hard))
+                try:
+                    _call_entry(model, d, dict(external_data="w.data", size_threshold_bytes=0), {"entry": entry})
+                    code = b"ok"
+                except BaseException as e:  # noqa: BLE001
+                    code = f"raised:{type(e).__name__}:{getattr(e, 'errno', None)}".encode()
+                os.write(wfd, code)
+            finally:
+                os._exit(0)
+        os.close(wfd)
+        outcome = b""
+        while True:
+            chunk = os.read(rfd, 4096)
+            if not chunk:
+                break
+            outcome += chunk
+        os.close(rfd)
+        os.waitpid(pid, 0)
+        outcome = outcome.decode() or "child_died"
+        data = open(os.path.join(d, "w.data"), "rb").read()
+        extra = sorted(set(os.listdir(d)) - before - {"m.onnx"})
+        if outcome == "ok":
+            if data != new:
+                bad.append(("save_reported_success_but_data_file_is_not_the_new_bytes", f"len={len(data)} want {len(new)}; equals old={data == old}"))
+        else:
+            if data != old:
+                bad.append(("failed_save_changed_the_existing_data_file", f"outcome={outcome} len={len(data)} new_prefix={data == new[:len(data)]}"))
+        if extra:
+            bad.append(("temporary_files_left_behind", f"outcome={outcome} {extra}"))
+    finally:
+        shutil.rmtree(d, ignore_errors=True)
+    return outcome, bad
+
+
+def _sl_limits(tier):
+    base = {0, 1, 500, 999, 1000, 1001, 1500, 1999, 2000, 2001, 4096}
+    if tier == "thorough":
+        base |= set(range(0, 2100, 37))
+    else:
+        base |= set(range(0, 2100, 250)) | {1990, 1024}
+    return sorted(base)
+
+
+def _sl_work(task):
+    kind, entry, tier = task
+    found = {}
+    outcomes = {}
+    n = 0
+    for limit in _sl_limits(tier):
+        n += 1
+        outcome, bad = _sl_run(kind, entry, limit)
+        outcomes[outcome.split(":")[0]] = outcomes.get(outcome.split(":")[0], 0) + 1
+        for clause, detail in bad:
+            found.setdefault(f"size_limit[{kind},{entry}]|{clause}", {"history": f"size_limit[{kind},{entry}]", "plan": {"rlimit_fsize": limit}, "clause": clause, "detail": detail, "kind": kind, "entry": entry, "limit": limit})
+    return f"size_limit[{kind},{entry}]", n, n, found, outcomes
+
+
 def _work(h_index_tier):
     idx, tier = h_index_tier
     h = histories(tier)[idx]
@@ -556,8 +663,16 @@ def main(tier):
         common.eprint(f"  [C08] {name}: effects={neff} runs={runs} violations={sorted(c.split('|')[1] for c in f)}")
         for k, v in f.items():
             found.setdefault(k, v)
+    sl = common.pmap(_sl_work, [(k, e, tier) for k in SL_KINDS for e in ("save", "convert")], chunksize=1)
+    for name, runs, neff, f, outcomes in sl:
+        common.eprint(f"  [C08] {name}: limits={runs} outcomes={outcomes} violations={sorted(c.split('|')[1] for c in f)}")
+        total_runs += runs
+        total_eff += neff
+        for k, v in f.items():
+            found.setdefault(k, v)
     for key, f in sorted(found.items()):
-        r.violation(key, f"{f['clause']}: {f['detail']} (plan {f['plan']})", {"engine": "E5", "history": f["history"], "fault_plan": f["plan"], "oracle": f["clause"], "detail": f["detail"]})
+        r.violation(key, f"{f['clause']}: {f['detail']} (plan {f['plan']})", {"engine": "E5", "history": f["history"], "fault_plan": f["plan"], "oracle": f["clause"], "detail": f["detail"],
+                                                                                **({"size_limit": [f["kind"], f["entry"], f["limit"]]} if "limit" in f else {})})
     for name, runs, neff, f, log in res[:2]:
         r.sample({"history": name, "effects": log})
     r.coverage.update({
@@ -573,6 +688,11 @@ def main(tier):
 
 
 def replay(obj):
+    if obj.get("size_limit"):
+        kind, entry, limit = obj["size_limit"]
+        outcome, bad = _sl_run(kind, entry, limit)
+        hit = [b for b in bad if b[0] == obj["oracle"]]
+        return (not hit), [outcome] + hit
     hs = {h.name: h for h in histories("thorough")}
     h = hs[obj["history"]]
     runs, neff, found, log = run_history(h)
